@@ -29,6 +29,11 @@ GARBAGE = [
     b'{"matches": [], "matches": 5}', b'{"matches": [] ',
     b'Error: Unknown language code\n', b'\xc3', b'{"matches": [{"offset": 1e400}]}',
     b'{"matches": [{"offset": NaN, "length": Infinity}]}',
+    # syntactically valid JSON nested deeper than the interpreter's recursion
+    # limit (the decoder raises RecursionError, not a ValueError)
+    b'[' * 6000 + b']' * 6000,
+    b'{"matches": ' + b'[' * 6000 + b']' * 6000 + b'}',
+    b'{"matches": [{"offset": ' + b'{"a":' * 6000 + b'1' + b'}' * 6000 + b'}]}',
 ]
 
 
